@@ -263,7 +263,7 @@ def compute_expanded_multivalue_features(
             if missing_symbol in unique_values:
                 unique_values.remove(missing_symbol)
 
-        for unique_value in unique_values:
+        for unique_value in sorted(unique_values):
             tmp_vec = []
             for enx, multivalue in enumerate(multivalue_sets):
                 if unique_value in multivalue:
@@ -515,7 +515,7 @@ def compute_batch_ranking(
 
         focus_set.add(args.label_column)
         focus_set = {x for x in focus_set if x in input_dataframe.columns}
-        input_dataframe = input_dataframe[list(focus_set)]
+        input_dataframe = input_dataframe[[x for x in input_dataframe.columns if x in focus_set]]
 
     if args.transformers != 'none':
         pbar.set_description('Adding transformations')
